@@ -40,7 +40,7 @@ sandbox is offline and sccache is not installed):
 2. The full existing suite passes with the change (your demo test absent):
    `RUSTC_WRAPPER= CARGO_NET_OFFLINE=true cargo nextest run --workspace --no-fail-fast --tool-config-file pb:/w/lib/nextest.toml --profile pb --test-threads 6 --offline`
    must end with `691 tests run: 691 passed`. (Takes some minutes; other jobs share the machine. Run it once, near the end.)
-3. A demonstration: a new integration test file (e.g. tests/{low}_r7_demo{k}.rs, using only the crate's public API, crate name
+3. A demonstration: a new integration test file (e.g. tests/{low}_r8_demo{k}.rs, using only the crate's public API, crate name
    `redis_sim`) or a small example, that FAILS with your change and PASSES on the unchanged tree. Run it both ways
    (use `git diff > /tmp/x.diff; git apply -R /tmp/x.diff` to get the unchanged tree; do NOT use `git stash`: the stash is shared
    between all worktrees of the repository and other agents are working in theirs). It must be deterministic.
